@@ -8,6 +8,7 @@ Inductive op22 :=
 | O2AddCa (name : Z) (pref : option Z) (bypass : bool)
 | O2CaSubscribe (i : nat) (cid : Z)
 | O2CaSubReq (i : nat) (cid : Z)
+| O2CaUnsubReq (i : nat) (cid : Z)
 | O2AddTimer (now delta cid : Z) (ret : bool)
 | O2RemoveTimer (cid : Z)
 | O2Send (now dp pf ps prio sa : Z) (data : pl) (tl ff : Z)
@@ -31,6 +32,12 @@ Definition handler22 (o : op22) (m : node22) : act node22 :=
   | O2CaSubReq i cid =>
       match nth_error (n_cas (base m)) i with
       | Some c => onbase m (fun n => set_ca n i (with_ca_reqs c (c_reqs c ++ [cid])))
+      | None => Raise m E_Alias
+      end
+  | O2CaUnsubReq i cid =>
+      match nth_error (n_cas (base m)) i with
+      | Some c => if existsb (Z.eqb cid) (c_reqs c) then onbase m (fun n => set_ca n i (with_ca_reqs c (Replay21.zremove1 cid (c_reqs c))))
+                  else Raise m E_Value
       | None => Raise m E_Alias
       end
   | O2AddTimer now delta cid ret => onbase m (fun n => add_timer n now delta (TApp cid) ret)
